@@ -184,6 +184,10 @@ def model_line(line: str) -> str:
             return "ok " + cstr(untok(line[3:]))
         except Exception:
             return "unparsable " + line
+    if line == "err validation-lax":
+        return "err validation"
+    if line in ("err missing", "err lax-or-invalid"):
+        return "err invalid"  # both are collected pydantic validation errors; which one is reported first depends on nesting
     if line.startswith("err ") or line in ("ok", "true", "false", "bad-op"):
         return line
     try:
@@ -849,7 +853,8 @@ def real(I: dict, f: Any) -> Any:
     try:
         return ("ok", f())
     except Exception as e:  # noqa: BLE001 - every failure of the code under test is classified
-        return ("err", classify(I, e))
+        k = classify(I, e)
+        return ("err", "invalid" if k in ("missing", "lax-or-invalid") else k)
 
 
 # slot kinds of the tick / result classes, written down here independently of the generator
@@ -1347,7 +1352,7 @@ def malformed_event(I: dict, U: Universe, tr: Trace, rng: Any, ev: Any, cid: str
         else:
             del e2[k]
         r = real(I, lambda: SE.EventEnvelopeWithMetadata.model_validate(jrt(e2)).load_event([U.cls[c] for c in reg_ids]))
-        if r[0] == "err" and r[1] in ("missing", "lax-or-invalid", "not-dict"):
+        if r[0] == "err" and r[1] in ("invalid", "not-dict"):
             r = ("err", "envelope-invalid")
         tr.op(f"load2|{tok(e2)}|{','.join(reg_ids)}", ok_inst(U, r[1]) if r[0] == "ok" else "err " + r[1])
     else:
@@ -1625,10 +1630,17 @@ def run(env: Env) -> Outcome:
         out.count(k, v)
     out.violations += tr.violations
     try:
-        model_out = [model_line(x) for x in Driver("eventserial").run(tr.lines)]
+        raw = Driver("eventserial").run(tr.lines)
     except Exception as e:
         out.divergences.append(Divergence("eventserial", 0, "<driver>", repr(e), ""))
         return out
+    model_out = [model_line(x) for x in raw]
+    # `lax-or-invalid` is the model saying "pydantic's lax mode decides, not modelled": the real code may
+    # reject the value or coerce it (an int read into a float field of a same-named class, ...)
+    for i, r in enumerate(raw[: len(tr.impl)]):
+        if r in ("err lax-or-invalid", "err validation-lax") and tr.impl[i].startswith("ok "):
+            out.count("lax-coercion-accepted")
+            model_out[i] = tr.impl[i]
     out.traces_validated = len(tr.lines)
     out.disagreements_checked = len(tr.lines)
     d = diff_streams("eventserial", tr.lines, model_out, tr.impl)
